@@ -2,12 +2,14 @@
 \* epoch absent/0, revision absent/0, upstream 1 character 0 / 1 (8 start versions), objects reach every in-domain string of <= 5 characters;
 \* every assignment of full_version / epoch / upstream_version / debian_revision to object 1, including the
 \* boundary-moving values (upstream "x-y" "d:y", revision "x-0", None with '-' / ':' in the upstream part)
+\* and a second object DERIVED from a live one (Derive21 / Derive12; kin) that stays in use: Independent, Related
 CONSTANTS
   HashOnString = FALSE
   TildeOrderZero = FALSE
   StaleKey = FALSE
   NoResplit = FALSE
   PartialOnReject = FALSE
+  SharedOnCopy = FALSE
   Boundary = TRUE
   MaxFull = 5
   Epochs <- E_two
@@ -25,4 +27,6 @@ INVARIANT Agree
 INVARIANT Antisym
 INVARIANT HashConsistent
 INVARIANT HashImpl
+INVARIANT Related
+PROPERTY Independent
 CHECK_DEADLOCK FALSE
